@@ -374,6 +374,26 @@ class Inliner:
         "core::bool::<impl bool>::then": "then",
     }
 
+    def _expand_then_some(self, b, t, callee, locals_, blocks):
+        """`cond.then_some(v)`  ==>  if cond { Some(v) } else { None }  (v is dropped by the callee otherwise;
+        only values whose drop runs no user code are expanded)"""
+        args = t["args"]
+        if len(args) != 2:
+            return None
+        vty = self._op_ty(args[1], locals_) or {}
+        if vty.get("dp", 0):
+            return None
+        span = {k: t.get(k) for k in ("file", "line", "exp", "macro")}
+        cleanup = blocks[b]["cleanup"]
+        nb0 = len(blocks)
+        goto = {"k": "goto", "target": t["target"], **span} if t["target"] is not None else {"k": "unreachable", **span}
+        some = {"k": "agg", "ak": "adt", "name": "core::option::Option", "variant": "Some", "vidx": 1, "fields": ["0"], "ops": [copy.deepcopy(args[1])]}
+        none = {"k": "agg", "ak": "adt", "name": "core::option::Option", "variant": "None", "vidx": 0, "fields": [], "ops": []}
+        blocks.append({"cleanup": cleanup, "stmts": [{"k": "assign", "dst": copy.deepcopy(t["dst"]), "rv": some, **span}], "term": dict(goto)})
+        blocks.append({"cleanup": cleanup, "stmts": [{"k": "assign", "dst": copy.deepcopy(t["dst"]), "rv": none, **span}], "term": dict(goto)})
+        blocks[b]["term"] = {"k": "switch", "discr": copy.deepcopy(args[0]), "targets": [["0", nb0 + 1]], "otherwise": nb0, **span, "adaptor": "then_some"}
+        return [nb0, nb0 + 1]
+
     def _expand_option_adaptor(self, b, t, callee, locals_, blocks):
         kind = self.OPT_ADAPTORS[callee["def"]]
         args = t["args"]
@@ -459,6 +479,8 @@ class Inliner:
             return self._expand_for_each(b, t, callee, locals_, blocks)
         if callee is not None and callee["def"] in self.OPT_ADAPTORS:
             return self._expand_option_adaptor(b, t, callee, locals_, blocks)
+        if callee is not None and callee["def"] == "core::bool::<impl bool>::then_some":
+            return self._expand_then_some(b, t, callee, locals_, blocks)
         if callee is None or callee["def"] not in self.ADAPTORS:
             return None
         d = callee["def"]
